@@ -96,6 +96,10 @@ structure MSt where
   ghost : List Nat := []
   /-- keys whose disk copies were invalidated (removed / update dropped) with no disk-eligible write since -/
   inval : List Nat := []
+  /-- placement advice of the latest insert of each key -/
+  lastLoc : List (Nat × String) := []
+  /-- (key, version) a flushing close had to persist: later lookups must deliver that version -/
+  persisted : List (Nat × Nat) := []
   held : Bool := false
   gated : Bool := false
 
@@ -114,6 +118,7 @@ def monitor (cfgF : Fields) (ops : List (Nat × Fields)) : String :=
   let foc := getD cfgF "foc" "1" = "1"
   let tomb := getD cfgF "tomb" "0" = "1"
   let idHash := getD cfgF "hmode" "id" = "id"
+  let lossy := getD cfgF "lossy" "0" = "1"
   let rec go (st : MSt) (reopened : Bool) : List (Nat × Fields) → Nat → String
     | [], _ => "HOLDS"
     | (ln, f) :: rest, n =>
@@ -251,10 +256,51 @@ def monitor (cfgF : Fields) (ops : List (Nat × Fields)) : String :=
             some (fail "C15" "close_without_flush_wrote" s!"{w} bytes")
           else none
         else none
-      match lookupFail <|> hitWrite <|> inMemOnDisk <|> onDiskResident <|> woiInsert <|> woeInsert <|> woiEvict <|> closeFail with
+      -- C15: what a flushing close persisted must come back with exactly that version
+      let persistFail : Option String :=
+        if (op = "get" || op = "fetch") && idHash then
+          match st.persisted.find? (·.1 = k) with
+          | some (_, pv) =>
+            (match parseVal ret with
+             | some (_, rv, src) =>
+               if src ≠ "outer" && rv ≠ pv then
+                 some (fail "C15" "close_persisted_stale_version" s!"key {k} was resident with version {pv} at a flushing close, a later lookup delivers version {rv} from {src}")
+               else none
+             | none =>
+               if ret = "miss" && !lossy then
+                 some (fail "C15" "resident_entry_lost_by_close" s!"key {k} (version {pv}) was resident at a flushing close and is gone")
+               else none)
+          | none => none
+        else none
+      let lastLoc' : List (Nat × String) :=
+        match op with
+        | "ins" => (k, getD f "loc" "-") :: st.lastLoc.filter (·.1 ≠ k)
+        | "wins" => if ret = "some" then (k, "-") :: st.lastLoc.filter (·.1 ≠ k) else st.lastLoc
+        | "fetch" => (match parseVal ret with
+            | some (_, _, "outer") => (k, "-") :: st.lastLoc.filter (·.1 ≠ k)
+            | _ => st.lastLoc)
+        | "clear" => []
+        | _ => st.lastLoc
+      let persisted' : List (Nat × Nat) :=
+        match op with
+        | "reopen" =>
+          if foc then
+            (st.prevMem.filterMap fun x =>
+              match tGet st.truth x, (st.lastLoc.find? (·.1 = x)).map (·.2) with
+              | some v, some loc => if loc ≠ "m" && !st.big.contains v then some (x, v) else none
+              | _, _ => none) ++ (st.persisted.filter fun p => !st.prevMem.contains p.1)
+          else st.persisted
+        | "ins" | "rm" => st.persisted.filter (·.1 ≠ k)
+        | "wins" => if ret = "some" then st.persisted.filter (·.1 ≠ k) else st.persisted
+        | "fetch" => (match parseVal ret with
+            | some (_, _, "outer") => st.persisted.filter (·.1 ≠ k)
+            | _ => st.persisted)
+        | "clear" => []
+        | _ => st.persisted
+      match lookupFail <|> persistFail <|> hitWrite <|> inMemOnDisk <|> onDiskResident <|> woiInsert <|> woeInsert <|> woiEvict <|> closeFail with
       | some s => s
       | none =>
-        go { truth := truth', advice := advice', big := big', prevMem := mem, wild := wild', ghost := ghost', inval := inval', held := held', gated := gated' }
+        go { truth := truth', advice := advice', big := big', prevMem := mem, wild := wild', ghost := ghost', inval := inval', lastLoc := lastLoc', persisted := persisted', held := held', gated := gated' }
           (reopened || op = "reopen") rest (n + 1)
   go {} false ops 0
 
